@@ -74,6 +74,12 @@ impl Repeat {
         Ok(())
     }
 
+    /// Number of active repeat frames (verification accessor).
+    #[cfg(essential_base_verif)]
+    pub fn depth(&self) -> usize {
+        self.stack.len()
+    }
+
     /// Get the current repeat counter.
     ///
     /// Returns an error if the stack is empty.
